@@ -406,6 +406,32 @@ def gen_ec_natives(ctx, crv):
             for t in (tags or ["plain"]):
                 got[t] += 1
             out.append((k, "+".join(tags) if tags else "plain"))
+    # keys whose BINARY encodings contain octets a text-minded normalisation would alter
+    # (CR LF inside the DER, white space or NUL as the last octet): DER is binary and must
+    # round-trip whatever octets it contains
+    if crv in ("P-256", "P-384"):
+        from cryptography.hazmat.primitives import serialization as _ser
+        wantb = {"der-crlf": 2, "der-ends-ws": 1, "der-ends-nul": 1}
+        gotb = dict.fromkeys(wantb, 0)
+        for _ in range(ctx.scale(30000, 60000)):
+            if all(gotb[t] >= wantb[t] for t in wantb):
+                break
+            k = derive(rng.randrange(1, 1 << bits))
+            if k is None:
+                continue
+            ders = [k.private_bytes(_ser.Encoding.DER, _ser.PrivateFormat.PKCS8, _ser.NoEncryption()),
+                    k.public_key().public_bytes(_ser.Encoding.DER, _ser.PublicFormat.SubjectPublicKeyInfo)]
+            tg = None
+            if any(b"\r\n" in d for d in ders):
+                tg = "der-crlf"
+            elif any(d[-1:] in (b" ", b"\t", b"\r", b"\n", b"\x0b", b"\x0c") for d in ders):
+                tg = "der-ends-ws"
+            elif any(d[-1:] == b"\x00" for d in ders):
+                tg = "der-ends-nul"
+            if tg and gotb[tg] < wantb[tg]:
+                gotb[tg] += 1
+                out.append((k, tg))
+        got.update(gotb)
     return out, got
 
 
